@@ -102,6 +102,16 @@ def seeded_values(seed, tier):
     vals = ["", "x", "x" * 1024, "é" * 700, "{5}", "{5+}", "{0}", "{12+}\r\nabc", "a\r\nLOGOUT", "a\"\r\nLOGOUT\r\n",
             "\\", "\\\\", '"', '""', "a\\\"b", "tab\there", "☃" * 50, "{5}x", "x{5}", "line1\nline2", "\0", "a\0b",
             " lead", "trail ", "{", "}", "{+}", "{5+", "\r", "\n", "\r\n", "name with spaces", "ü", "a" * 65536]
+    # long values: a hostile symbol placed in filler text, at lengths around the usual thresholds (RFC 5804's
+    # 1024-octet note on quoted strings, buffer sizes), so that an encoding rule that depends on the length is met
+    lens = [256, 1023, 1024, 1025, 4096, 4097] if tier == "quick" else \
+           [255, 256, 257, 511, 512, 1000, 1022, 1023, 1024, 1025, 1026, 2047, 2048, 2049, 4095, 4096, 4097, 8192, 65535, 65537]
+    for n in lens:
+        for sym in ['"', "\\", "é", "{5}", " "] + (["\t", "☃", "{5+}"] if tier != "quick" else []):
+            k = rng.randrange(1, n)
+            vals += [sym + "a" * (n - len(sym)), "a" * (n - len(sym)) + sym, "a" * k + sym + "a" * (n - k - len(sym))]
+            if n <= 1100:
+                vals.append((sym * n)[:n])
     alphabet = ['"', "\\", "\r", "\n", "{", "}", "+", "5", "a", " ", "é", "\0", "\t", "☃"]
     for _ in range(60 if tier == "quick" else 1500):
         k = rng.randrange(1, 40)
